@@ -589,7 +589,27 @@ GeomDef s5_geom(const S5Geom &sg, int variant) {
     const int x = i % W, y = i / W, z = (i * 7) % 5;
     if (variant == 0) pos.entries.push_back(bytes_of(std::vector<float>{x * 0.5f, y * 0.25f, (float)z}));
     else pos.entries.push_back(bytes_of(std::vector<int32_t>{x, y, z}));
-    gen.entries.push_back(bytes_of(std::vector<uint16_t>{(uint16_t)(i % 65536)}));  // n distinct symbols
+    if (variant != 2) gen.entries.push_back(bytes_of(std::vector<uint16_t>{(uint16_t)(i % 65536)}));  // n distinct symbols
+  }
+  if (variant == 2 && sg.mesh) {
+    // per-face attribute value: every vertex is split into one point per incident face (attribute seams everywhere)
+    g.num_points = 0;
+    for (int i = 0; i + 2 < sg.n; ++i) {
+      const int v[3] = {i % 2 == 0 ? i : i + 1, i % 2 == 0 ? i + 1 : i, i + 2};
+      g.faces.push_back({g.num_points, g.num_points + 1, g.num_points + 2});
+      for (int k = 0; k < 3; ++k) {
+        pos.map.push_back(v[k]);
+        gen.map.push_back(i % 7);
+      }
+      g.num_points += 3;
+    }
+    for (int k = 0; k < 7; ++k) gen.entries.push_back(bytes_of(std::vector<uint16_t>{(uint16_t)(k * 1000)}));
+    gen.per_corner = true;
+    g.atts = {pos, gen};
+    return g;
+  }
+  if (variant == 2) {  // clouds: same as variant 1
+    for (int i = 0; i < sg.n; ++i) gen.entries.push_back(bytes_of(std::vector<uint16_t>{(uint16_t)(i % 65536)}));
   }
   g.atts = {pos, gen};
   if (sg.mesh)
@@ -601,8 +621,9 @@ GeomDef s5_geom(const S5Geom &sg, int variant) {
 }
 void add_s5(mc::Runner &R, const std::string &name, bool thorough_list, bool quick, bool thorough) {
   const std::vector<S5Geom> L = s5_list(thorough_list);
-  // cfg: method kinds {0,1,2,3} (cloud: seq/kd) x speed {0,1,5,10} x gen-pred {auto, none}
-  mc::Radix rx{2, 4, 4, 2, (uint64_t)L.size()};
+  // cfg: method kinds {0,1,2,3,4 = automatic} (cloud: seq/kd) x speed {0,1,5,10} x gen-pred {auto, none} x geometry variant {f32 q14, i32,
+  // i32 + per-face attribute (seams everywhere)}
+  mc::Radix rx{2, 4, 5, 3, (uint64_t)L.size()};
   auto make = [=](uint64_t idx, GeomDef *g, EncCfg *c) {
     auto d = rx.decode(idx);
     const S5Geom &sg = L[d[4]];
@@ -610,7 +631,7 @@ void add_s5(mc::Runner &R, const std::string &name, bool thorough_list, bool qui
     static const int sp[4] = {0, 1, 5, 10};
     if (sg.mesh) *c = gs::mesh_cfg((int)d[2], sp[d[1]]);
     else {
-      c->method = (int)d[2] % 2;
+      c->method = d[2] == 4 ? -1 : (int)d[2] % 2;
       c->speed_enc = c->speed_dec = sp[d[1]];
     }
     c->qbits = {d[3] == 0 ? 14 : 0, 0};
@@ -634,8 +655,8 @@ void add_s5(mc::Runner &R, const std::string &name, bool thorough_list, bool qui
     EncCfg c;
     make(idx, &g, &c);
     auto d = rx.decode(idx);
-    return L[d[4]].what + " with " + std::to_string(L[d[4]].n) + " points, position " + (d[3] == 0 ? "f32 q14" : "i32") +
-           ", u16 attribute with one distinct value per point; " + text(c);
+    return L[d[4]].what + " with " + std::to_string(L[d[4]].n) + " vertices, position " + (d[3] == 0 ? "f32 q14" : "i32") +
+           (d[3] == 2 ? ", u16 attribute constant per face (every vertex split into one point per face); " : ", u16 attribute with one distinct value per point; ") + text(c);
   };
   R.add(s);
 }
